@@ -200,8 +200,11 @@ async fn gen_proc(sim: &mut Sim, rng: &mut Prng, stats: &mut Stats, name: &str) 
     let allow_mb = mb_keys_enabled();
     let mut pool: Vec<Vec<u8>> = Vec::new();
     // sometimes two clusters whose ids are close to each other share the world (C16)
+    // (the last pair: ids of 300 bytes that differ only in their last byte)
+    let long_a: &'static str = Box::leak(format!("{}a", "L".repeat(299)).into_boxed_str());
+    let long_b: &'static str = Box::leak(format!("{}b", "L".repeat(299)).into_boxed_str());
     let cluster_pair: Option<(&str, &str)> = if rng.chance(1, 5) {
-        Some(*rng.pick(&[("prod", "Prod"), ("c", ""), ("ab", "abc"), ("x", "y"), ("c ", "c")]))
+        Some(*rng.pick(&[("prod", "Prod"), ("c", ""), ("ab", "abc"), ("x", "y"), ("c ", "c"), (long_a, long_b)]))
     } else {
         None
     };
@@ -1570,6 +1573,46 @@ pub async fn gen_fd(sim: &mut Sim, rng: &mut Prng, stats: &mut Stats, name: &str
                         ]
                     };
                     sim.deliver(0, &ack_bytes(&ops, 16384, false));
+                }
+            }
+            99..=99 => {
+                // a strictly steady run of fresh heartbeats (one every 64 units, well within
+                // max_interval), an evaluation, then — sometimes — a catch-up half an interval after
+                // the last heartbeat, and another evaluation: the member must be live at both
+                let mi = rng.below(2) as usize;
+                let dt = UNIT * 64;
+                for _ in 0..rng.range(4, 7) {
+                    sim.tick(dt).await;
+                    hb[mi] += 1;
+                    sim.deliver(0, &syn_bytes("c", &[(wids[mi].clone(), hb[mi], 0, 0)]));
+                }
+                sim.eval(0);
+                sim.tick(dt).await;
+                hb[mi] += 1;
+                sim.deliver(0, &syn_bytes("c", &[(wids[mi].clone(), hb[mi], 0, 0)]));
+                sim.tick(dt / 2).await;
+                if rng.chance(2, 3) {
+                    let cur = sim.nodes[0].chitchat.node_state(&members[mi]).map(|ns| (ns.last_gc_version(), ns.max_version()));
+                    if let Some((gc, mx)) = cur {
+                        let nmx = mx.max(gc) + 1;
+                        sim.catchup(0, &members[mi], &[("a".to_string(), "s".to_string(), nmx, 0)], nmx, gc);
+                    }
+                }
+                sim.eval(0);
+                stats.bump("fd_steady_run");
+            }
+            98..=98 => {
+                // an accepted external catch-up for a member: it carries no heartbeat information and
+                // must leave the member's classification at the next evaluation as it would have been
+                let mi = rng.below(2) as usize;
+                let cur = sim.nodes[0].chitchat.node_state(&members[mi]).map(|ns| (ns.last_gc_version(), ns.max_version()));
+                if let Some((gc, mx)) = cur {
+                    let nmx = mx.max(gc) + 1 + rng.below(3);
+                    sim.catchup(0, &members[mi], &[("a".to_string(), "z".to_string(), nmx, 0)], nmx, gc);
+                    if rng.chance(1, 2) {
+                        sim.eval(0);
+                    }
+                    stats.bump("fd_catchup");
                 }
             }
             _ => {
